@@ -411,9 +411,13 @@ func validateNonEmpty(v interface{}, name string) error {
 }
 
 func validateNonEmptyWithAllowNil(v interface{}, _ string, allowNil bool) error {
+	// the value behind pointers: a default held by a *string or a *[]string
+	// is as empty as the one written in place
+	val := chaseValue(reflect.ValueOf(v))
+
 	// strings, also of a named string type
-	if s := reflect.ValueOf(v); s.Kind() == reflect.String {
-		if s.Len() == 0 {
+	if val.Kind() == reflect.String {
+		if val.Len() == 0 {
 			return ErrStringEmpty
 		}
 		return nil
@@ -426,7 +430,6 @@ func validateNonEmptyWithAllowNil(v interface{}, _ string, allowNil bool) error 
 		return nil
 	}
 
-	val := reflect.ValueOf(v)
 	if val.Kind() == reflect.Array || val.Kind() == reflect.Slice {
 		// arrays can not be nil (and reflect panics when asked)
 		if val.Kind() == reflect.Slice && val.IsNil() {
